@@ -235,3 +235,18 @@ func VfCopySourceRange() {
 		zzvf.Assert(zzvf.And(lfits, length == lv-fv+1), "closed-range-length")
 	}
 }
+
+// VfClassifyRange exports the reference classification for end-to-end harnesses in other packages:
+// class 0 grey (either clause of the statement applies), 1 whole object, 2 unsatisfiable, 3 partial [first,last].
+func VfClassifyRange(size int64, h string) (class int, first, last int64) {
+	c, f, l := vfClassify(size, h)
+	switch c {
+	case vfGrey:
+		return 0, 0, 0
+	case vfWhole:
+		return 1, 0, 0
+	case vfUnsat:
+		return 2, 0, 0
+	}
+	return 3, f, l
+}
